@@ -171,12 +171,37 @@ func (w *stabWorld) commit(i int) error {
 		if again, err = observeOnly(w.root, n.uuid, w.reads, w.prot); err != nil {
 			return err
 		}
+		// everything acknowledged before the commit has been processed now: an answer that still changes
+		// from one read to the next, with no operation in between, is not lag
+		if err := w.unstableRead(i, again, "right after its commit"); err != nil {
+			return err
+		}
 	}
 	n.snap = again
 	return nil
 }
 
+// unstableRead re-reads committed node i a few times with no operation in between (the caller has settled
+// deeply) and reports a violation, under a signature of its own, when one of the observations differs from
+// ref.  It separates "the answer of the committed node is not a function of the stored state" from "a later
+// operation changed it"; without it such a read is reported as changed-by/<whatever operation came next>.
+func (w *stabWorld) unstableRead(i int, ref *obs, when string) error {
+	n := w.nodes[i]
+	for k := 0; k < 4; k++ {
+		o, err := observeOnly(w.root, n.uuid, w.reads, w.prot)
+		if err != nil {
+			return err
+		}
+		if kind, msg := diffObs(ref, o); kind != "" {
+			return stats.Violf("C02/stability/"+stabWhat(kind, msg)+"/unstable-read", "committed node %d (%s state) answers differently on consecutive reads with no operation in between (%s): %s", i, kind, when, msg)
+		}
+	}
+	return nil
+}
+
 // openNode resolves a node operand to an open node (creating a child of the newest committed leaf if none is open).
+// An implicit child is an operation of its own (POST newversion moves the head of the branch): the committed
+// nodes are verified right after it, so that what it changes is not attributed to the write that follows.
 func (w *stabWorld) openNode(sel int) (int, error) {
 	var open []int
 	for i, n := range w.nodes {
@@ -187,8 +212,29 @@ func (w *stabWorld) openNode(sel int) (int, error) {
 	if len(open) > 0 {
 		return open[pick(sel, len(open))], nil
 	}
-	return w.child(len(w.nodes)-1, false)
+	parent := len(w.nodes) - 1
+	ni, err := w.child(parent, false)
+	if err != nil {
+		return 0, err
+	}
+	w.cls["applied/implicit-newversion"]++
+	settle()
+	how := "newversion"
+	if w.nodes[ni].branch != w.nodes[parent].branch {
+		how = "branch"
+	}
+	if err := w.verify(fmt.Sprintf("%s (implicit child of node %d for the next write)", how, parent)); err != nil {
+		return 0, err
+	}
+	return ni, nil
 }
+
+// sigHeadJump is the one signature under which the neuronjson head-jump finding shows here (findings.go, F4):
+// POST newversion on a DAG-merge node moves the head of master into a lineage the in-memory head database
+// never loaded; the child answers from that stale database while it is the head and from the store once the
+// head moves on.  When it is listed, children of merge nodes are created with POST branch (which leaves the
+// head of master alone) instead of dropping the neuronjson reads from the snapshots.
+const sigHeadJump = "C02/stability/nj/all/changed-by/newversion"
 
 func (w *stabWorld) child(parent int, forceBranch bool) (int, error) {
 	if err := w.commit(parent); err != nil {
@@ -200,6 +246,11 @@ func (w *stabWorld) child(parent int, forceBranch bool) (int, error) {
 	}
 	var uuid, br string
 	var err error
+	if !forceBranch && len(p.parents) > 1 && stats.IsKnown(sigHeadJump) {
+		// steer around the listed finding by construction: no POST newversion on a merge node
+		forceBranch = true
+		stats.Excluded(sigHeadJump)
+	}
 	if !forceBranch && !w.kids[parent][p.branch] {
 		br = p.branch
 		uuid, err = drive.NewVersion(p.uuid)
@@ -412,6 +463,9 @@ func (w *stabWorld) verify(after string) error {
 				return err
 			}
 			if kind, msg := diffObs(n.snap, now); kind != "" {
+				if err := w.unstableRead(i, now, "first noticed after "+after); err != nil {
+					return err
+				}
 				what := "V"
 				if i != 1 {
 					what = fmt.Sprintf("node %d", i)
@@ -426,6 +480,10 @@ func (w *stabWorld) verify(after string) error {
 // stabSig: one signature per (what changed, kind of the later operation).  For a read endpoint "what" is
 // <instance>/<endpoint>, for stored keys "raw", for node metadata "meta-note|log|locked".
 func stabSig(kind, msg, opKind string) string {
+	return "C02/stability/" + stabWhat(kind, msg) + "/changed-by/" + opKind
+}
+
+func stabWhat(kind, msg string) string {
 	what := strings.ReplaceAll(kind, "/", "-")
 	if strings.HasPrefix(kind, "read/") {
 		// msg starts with "<METHOD> <instance>/<endpoint>..."
@@ -434,16 +492,19 @@ func stabSig(kind, msg, opKind string) string {
 			what = strings.SplitN(f[1], "/", 2)[0] + "/" + endpointOf(f[1])
 		}
 	}
-	return "C02/stability/" + what + "/changed-by/" + opKind
+	return what
 }
 
 // knownUnstableRead reports whether a read of the snapshot list is the subject of a listed finding; such a
 // read is left out of the snapshots (the history generator is untouched, so the search continues behind it).
 func knownUnstableRead(r readReq) (string, bool) {
 	what := strings.SplitN(r.Tail, "/", 2)[0] + "/" + endpointOf(r.Tail)
+	if sig := "C02/stability/" + what + "/unstable-read"; stats.IsKnown(sig) {
+		return sig, true
+	}
 	for _, ks := range [][]string{writeKinds, dagKinds} {
 		for _, k := range ks {
-			if sig := "C02/stability/" + what + "/changed-by/" + k; stats.IsKnown(sig) {
+			if sig := "C02/stability/" + what + "/changed-by/" + k; sig != sigHeadJump && stats.IsKnown(sig) {
 				return sig, true
 			}
 		}
